@@ -125,3 +125,35 @@ Theorem C17_merge_json_refuted_same_array_convergent :
     merge_json b l r = MMerged (JObj [(k_z, JArr [JNum 9; JNum 2; JNum 7])]).
 Proof. exact merge_json_refuted_same_array_convergent. Qed.
 Print Assumptions C17_merge_json_refuted_same_array_convergent.
+
+(* ---- round 3 ---- *)
+Theorem C17_json_eqb_refl : forall d, json_eqb d d = true.
+Proof. exact json_eqb_refl. Qed.
+Print Assumptions C17_json_eqb_refl.
+
+Theorem C17_oracle_on_model_merge_full : forall b l r,
+  wf_json b = true -> wf_json l = true -> wf_json r = true -> merge_side_conditions b l r = true ->
+  oracle (CMerge b l r, OMerge (mobs_of (merge_json b l r)) (mobs_of (merge_json b l r)) [] [] [] []) = true.
+Proof. exact oracle_on_model_merge_full. Qed.
+Print Assumptions C17_oracle_on_model_merge_full.
+
+Theorem C17_set_then_lookup_idx : forall p d v d', fits p d = true ->
+  walk MSet p d v = ROk d' true -> lookup p d' = Some v.
+Proof. exact set_then_lookup_idx. Qed.
+Print Assumptions C17_set_then_lookup_idx.
+
+Theorem C17_remove_then_lookup_idx : forall p d d', fits_rm p d = true -> wf_json d = true ->
+  walk MRemove p d JNull = ROk d' true -> lookup p d' = None.
+Proof. exact remove_then_lookup_idx. Qed.
+Print Assumptions C17_remove_then_lookup_idx.
+
+(* commutation, partial: different members of one object (full statement: any two unrelated paths) *)
+Theorem C17_set_set_commute_members_partial : forall k1 k2 v1 v2 kv, k1 <> k2 ->
+  app MSet [LKey k2] v2 (app MSet [LKey k1] v1 (JObj kv)) = app MSet [LKey k1] v1 (app MSet [LKey k2] v2 (JObj kv)).
+Proof. exact set_set_commute_members. Qed.
+Print Assumptions C17_set_set_commute_members_partial.
+
+Theorem C17_remove_remove_commute_members_partial : forall k1 k2 kv, k1 <> k2 ->
+  app MRemove [LKey k2] JNull (app MRemove [LKey k1] JNull (JObj kv)) = app MRemove [LKey k1] JNull (app MRemove [LKey k2] JNull (JObj kv)).
+Proof. exact remove_remove_commute_members. Qed.
+Print Assumptions C17_remove_remove_commute_members_partial.
